@@ -6,6 +6,9 @@ T2 (correspondence, every comparison evaluated by vm_compute over the definition
   engine   : <Engine>.apply_filters(data, FeatureSet) on generated tables / feature sets / <= 3 filters
                PythonDict engine           vs the MODEL  (also ill-typed and malformed parameters, rows lacking the key)
                PyArrow, Pandas engines     vs the SPEC   (well-typed domain; malformed parameters vs the model's error)
+  multi    : mloda.prepare + run_all with 2-3 requested features of the same / of different groups whose options differ
+             (8 schemes x 5 framework modes every run), 1-2 global filters: rows judged by a Python predicate and by the SPEC,
+             every exported plan step by Spec/FilterPlan.glue_okb (planner glue)
   e2e      : mloda.run_all with a GlobalFilter on generated root groups (with / without the filter column), a derived
              group on top, on PyArrowTable / PandasDataFrame / PythonDictFramework                     vs the SPEC
   time     : GlobalFilter._check_and_convert_time_info on aware datetimes in 14 zones (+ fixed offsets, naive, overflow)
@@ -27,7 +30,7 @@ from lib.vlib import cq_list, cq_str, cq_z, cq_bool
 
 LEVEL = "proof"
 logging.disable(logging.CRITICAL)
-REQ = ["MV.Spec.Filter", "MV.Model.FilterPyDict", "MV.Model.FilterArrow", "MV.Model.TimeFilter"]
+REQ = ["MV.Spec.Filter", "MV.Spec.FilterPlan", "MV.Model.FilterPyDict", "MV.Model.FilterArrow", "MV.Model.TimeFilter"]
 
 EXTRA = r"""
 Open Scope Z_scope.
@@ -58,20 +61,7 @@ Definition chk_spec (c : ecase) : bool :=
   | _ => false
   end.
 (* known-finding domains *)
-Definition unanchored (f : filt) : bool := match denote f with Some (CRegex p) => kf_arrow_regex p | _ => false end.
-Definition chk_arrow_kf (c : ecase) : bool :=
-  match c with
-  | ((names, fs, t), OOk ids) =>
-      all_fine names fs t && existsb (fun f => applicable names f && unanchored f) fs
-      && zs_eqb (ids_of (arrow_expected names fs t)) ids
-  | _ => false
-  end.
 Definition wellformed (f : filt) : bool := match denote f with Some _ => true | None => false end.
-Definition chk_pd_keyerror (c : ecase) : bool :=
-  match c with
-  | ((names, fs, t), OErr OKey) => existsb (fun f => applicable names f && wellformed f) fs
-  | _ => false
-  end.
 Definition has_null_member (f : filt) : bool :=
   match f_type f, p_values (f_par f) with FIn, Some vs => existsb is_null vs | _, _ => false end.
 Definition strip_null (f : filt) : filt :=
@@ -112,6 +102,19 @@ Definition meth_eqb (a b : meth) : bool :=
   match a, b with
   | MRange, MRange | MMin, MMin | MMax, MMax | MEqual, MEqual | MRegex, MRegex | MIn, MIn | MCustom, MCustom => true
   | _, _ => false
+  end.
+(* exported plan step: (columns of the group, names of the step, filters of the step, global filters) *)
+Definition chk_glue (c : list string * list string * list filt * list filt) : bool :=
+  match c with (cols, names, fsS, fs) => glue_okb cols names fsS fs end.
+(* the PyArrow regex model against the observed rows (string column, one regex filter) *)
+Definition chk_arrow_regex (c : ecase) : bool :=
+  match c with
+  | ((names, [f], t), OOk ids) =>
+      match denote f with
+      | Some (CRegex p) => zs_eqb (ids_of (filter (fun r => arrow_regex_holds p (get r (f_col f))) t)) ids
+      | _ => false
+      end
+  | _ => false
   end.
 Definition chk_dispatch (c : ftype * option meth) : bool :=
   match snd c with Some m => meth_eqb (dispatch (fst c)) m | None => false end.
@@ -500,7 +503,7 @@ def witness_e2e_cases() -> List[Dict[str, Any]]:
 
 def engine_cases(rng: random.Random, n: int) -> List[Dict[str, Any]]:
     out = []
-    plan = (["py"] * 35 + ["pa"] * 30 + ["pdo"] * 25 + ["pd"] * 10)
+    plan = (["py"] * 32 + ["pa"] * 30 + ["pdo"] * 14 + ["pd"] * 24)
     for ci in range(n):
         fw = rng.choice(plan)
         kinds = {"c": rng.choice(["int", "int", "num", "flt", "str", "str"])}
@@ -529,16 +532,16 @@ def engine_cases(rng: random.Random, n: int) -> List[Dict[str, Any]]:
             if kinds[col] == "int":
                 fl[0] = {"col": col, "type": "regex", "par": {"value": ["s", rng.choice(["1", "^2", "2$", "", "^1$", "0"])]}}
                 flavour = "regex_int"
-        elif mode < 0.28 and fw != "pd":
+        elif mode < 0.28:
             col = rng.choice(list(kinds))
             fl = [gen_malformed(rng, col, kinds[col], present_values(t, col))]
             flavour = "malformed"
-        elif mode < 0.33 and fw in ("py", "pa", "pdo"):
+        elif mode < 0.33:
             col = rng.choice(list(kinds))
             fl = [{"col": col, "type": "categorical_inclusion",
                    "par": {"values": [gen_param(rng, kinds[col], present_values(t, col)) for _ in range(rng.choice([1, 2, 3]))]}}]
             flavour = "values_list"
-        elif mode < 0.38 and fw in ("py", "pa", "pdo"):
+        elif mode < 0.38:
             col = rng.choice(list(kinds))
             fl = [gen_filter(rng, col, kinds[col], present_values(t, col), allow_regex=False, null_member=True)
                   for _ in range(1)]
@@ -700,6 +703,8 @@ def run_error_name(e: BaseException) -> str:
     msg = str(e).replace("\\n", "\n")
     lines = [l.strip(" '\")(,") for l in msg.splitlines() if l.strip(" '\")(,")]
     last = lines[-1] if lines else ""
+    if "has different filters for different features" in msg:
+        return "DifferentFilters"
     if last.startswith("KeyError") and "FeatureName" in last:
         return "KeyError"
     if "Data is empty or not in expected format" in last or "Data cannot be empty" in last:
@@ -752,7 +757,7 @@ def run_e2e(c: Dict[str, Any]) -> Dict[str, Any]:
 def e2e_cases(rng: random.Random, n: int) -> List[Dict[str, Any]]:
     out = []
     for ci in range(n):
-        fw = rng.choice(["pa", "pa", "pa", "py", "py", "py", "pdo", "pdo", "pdo", "pd"])
+        fw = rng.choice(["pa", "pa", "pa", "py", "py", "py", "pdo", "pd", "pd"])
         ngroups = rng.choice([1, 2, 2])
         groups = []
         allkinds = {"c": rng.choice(["int", "num", "str", "flt"]), "d": rng.choice(["int", "str"])}
@@ -805,6 +810,307 @@ def e2e_group_cases(c: Dict[str, Any]) -> List[Dict[str, Any]]:
         out.append({"names": [g["id"]] + list(g["cols"]), "filters": c["filters"], "table": g["table"],
                     "obs": obs, "request": r, "kinds": g["cols"]})
     return out
+
+
+# ------------------------------------------------------------------------------------------------------------
+# pure-Python row predicate (direct judgement of end-to-end results, independent of the Coq definitions)
+# ------------------------------------------------------------------------------------------------------------
+def _cmp(a: Any, b: Any) -> Optional[int]:
+    if a is None or b is None:
+        return None
+    if (a[0] == "s") != (b[0] == "s"):
+        return None
+    x = a[1] if a[0] == "s" else (Fraction(a[1]) if a[0] == "i" else Fraction(a[1], 2 ** a[2]))
+    y = b[1] if b[0] == "s" else (Fraction(b[1]) if b[0] == "i" else Fraction(b[1], 2 ** b[2]))
+    return -1 if x < y else (1 if x > y else 0)
+
+
+def _same(a: Any, b: Any) -> bool:
+    if a is None and b is None:
+        return True
+    return _cmp(a, b) == 0
+
+
+def py_holds(f: Dict[str, Any], x: Any) -> bool:
+    """does cell x satisfy the (well-formed) filter f?  range lower inclusive, upper by flag; null never satisfies an order."""
+    t, par = f["type"], f["par"]
+    le = lambda a, b: _cmp(a, b) in (-1, 0)  # noqa: E731
+    lt = lambda a, b: _cmp(a, b) == -1  # noqa: E731
+    if t == "range":
+        return le(par["min"], x) and (lt(x, par["max"]) if par.get("max_exclusive") is True else le(x, par["max"]))
+    if t == "min":
+        return le(par["value"], x)
+    if t == "max":
+        if "max" in par:
+            return lt(x, par["max"]) if par.get("max_exclusive") is True else le(x, par["max"])
+        return le(x, par["value"])
+    if t == "equal":
+        return _same(x, par["value"])
+    if t == "categorical_inclusion":
+        return any(_same(x, v) for v in par["values"])
+    if t == "regex":
+        if x is None or x[0] != "s":
+            return False
+        pat = par["value"][1]
+        pat = pat[1:] if pat.startswith("^") else pat
+        if pat.endswith("$"):
+            return x[1] == pat[:-1]
+        return x[1].startswith(pat)
+    raise ValueError(t)
+
+
+def py_expected_ids(cols: Sequence[str], filters: List[Dict[str, Any]], table: List[Dict[str, Any]]) -> List[int]:
+    return [r["id"][1] for r in table if all(py_holds(f, r.get(f["col"])) for f in filters if f["col"] in cols)]
+
+
+# ------------------------------------------------------------------------------------------------------------
+# end to end, several requested features whose options differ (planner glue: identity_matched_filters,
+# _add_filter_feature, add_single_filters_to_feature_set)
+# ------------------------------------------------------------------------------------------------------------
+SCHEMES = ["none", "identical", "diffkeys", "samekey", "with_without", "context_only", "context_vs_none", "group_same_context_diff"]
+FWMODES = ["pa", "py", "pd", "pdo", "mixed"]
+
+
+def scheme_options(scheme: str, k: int) -> List[Dict[str, Any]]:
+    out = []
+    for i in range(k):
+        g: Dict[str, Any] = {}
+        c: Dict[str, Any] = {}
+        if scheme == "identical":
+            g = {"x": 1}
+        elif scheme == "diffkeys":
+            g = {f"k{i}": f"v{i}"}
+        elif scheme == "samekey":
+            g = {"x": i + 1}
+        elif scheme == "with_without":
+            g = {"x": 1} if i == 0 else ({"y": 2} if i == 2 else {})
+        elif scheme == "context_only":
+            c = {"cx": i + 1}
+        elif scheme == "context_vs_none":
+            c = {"cx": 1} if i == 0 else {}
+        elif scheme == "group_same_context_diff":
+            g, c = {"x": 1}, {"cx": i + 1}
+        out.append({"group": g, "context": c})
+    return out
+
+
+def full_table(g: Dict[str, Any]) -> Tuple[List[Dict[str, Any]], Dict[str, str]]:
+    """table and column kinds including the value columns  name = id + offset  of a multi-feature group."""
+    t = [{**r, **{v: ["i", r["id"][1] + off] for v, off in g["vcols"].items()}} for r in g["table"]]
+    return t, {**g["cols"], **{v: "int" for v in g["vcols"]}}
+
+
+def make_multi_root(g: Dict[str, Any]) -> type:
+    from mloda.provider import FeatureGroup, DataCreator
+    _uid[0] += 1
+    t, kinds = full_table(g)
+    names = {"id"} | set(kinds)
+    fw = g["fw"]
+
+    def input_data(cls: Any) -> Any:
+        return DataCreator(names)
+
+    def calculate_feature(cls: Any, data: Any, features: Any) -> Any:
+        return native(fw, t, kinds)
+
+    def compute_framework_rule(cls: Any) -> Any:
+        return {fw_class(fw)}
+
+    return type(f"K11M{_uid[0]}_{g['name']}", (FeatureGroup,), {"input_data": classmethod(input_data),
+                                                                 "calculate_feature": classmethod(calculate_feature),
+                                                                 "compute_framework_rule": classmethod(compute_framework_rule)})
+
+
+def run_multi(c: Dict[str, Any]) -> Dict[str, Any]:
+    """prepare (plan export) and run_all, each with fresh GlobalFilter / Feature objects."""
+    from mloda.user import mloda, Feature, PluginCollector, GlobalFilter, Options
+    from mloda.core.core.step.feature_group_step import FeatureGroupStep
+    classes = {g["name"]: make_multi_root(g) for g in c["groups"]}
+    by_class = {v: k for k, v in classes.items()}
+    cfws = {fw_class(g["fw"]) for g in c["groups"]}
+    pars = [real_par(f["par"]) for f in c["filters"]]
+
+    def args() -> Tuple[List[Any], Any]:
+        gf = GlobalFilter()
+        for f, rp in zip(c["filters"], pars):
+            gf.add_filter(f["col"], f["type"], rp)
+        feats = [Feature(r["name"], options=Options(group=dict(r["opt"]["group"]), context=dict(r["opt"]["context"]))) for r in c["request"]]
+        return feats, gf
+
+    out: Dict[str, Any] = {"plan": None, "plan_error": None, "error": None, "ids": {}}
+    # -- the plan
+    try:
+        feats, gf = args()
+        sess = mloda.prepare(feats, compute_frameworks=cfws, global_filter=gf,
+                             plugin_collector=PluginCollector.enabled_feature_groups(set(classes.values())))
+        steps = []
+        for st in sess.engine.execution_planner:
+            if isinstance(st, FeatureGroupStep) and st.feature_group in by_class:
+                fl = []
+                for sf in (st.features.filters or []):
+                    raw = dict(sf.parameter._raw)
+                    idx = next((i for i, (f, rp) in enumerate(zip(c["filters"], pars))
+                                if f["col"] == str(sf.filter_feature.name) and f["type"] == sf.filter_type and rp == raw), None)
+                    fl.append(idx)
+                steps.append({"group": by_class[st.feature_group], "names": sorted(st.features.get_all_names()),
+                              "filters": fl, "filters_none": st.features.filters is None,
+                              "requested": sorted(f.get_name() for f in st.features.features if f.initial_requested_data),
+                              "opts": sorted(json.dumps([f.get_name(), f.options.group, f.options.context], sort_keys=True, default=str)
+                                             for f in st.features.features)})
+        seen_steps, uniq_steps = set(), []
+        for st in steps:
+            k = json.dumps(st, sort_keys=True)
+            if k not in seen_steps:
+                seen_steps.add(k)
+                uniq_steps.append(st)
+        out["plan"] = uniq_steps
+    except BaseException as e:  # noqa: BLE001
+        out["plan_error"] = run_error_name(e)
+    # -- the run
+    try:
+        feats, gf = args()
+        res = mloda.run_all(feats, compute_frameworks=cfws, global_filter=gf,
+                            plugin_collector=PluginCollector.enabled_feature_groups(set(classes.values())))
+    except BaseException as e:  # noqa: BLE001
+        out["error"] = run_error_name(e)
+        return out
+    for r in c["request"]:
+        col = result_column(res, r["name"])
+        if col is None:
+            out["ids"][r["name"]] = None
+            continue
+        g = next(g for g in c["groups"] if r["name"] in g["vcols"])
+        vals = [canon_cell(x) for x in col]
+        out["ids"][r["name"]] = [int(v) - g["vcols"][r["name"]] for v in vals] if all(isinstance(v, Fraction) for v in vals) else "Mutated"
+    return out
+
+
+def gen_multi_case(rng: random.Random, scheme: str, fwmode: str, same_group: bool, k: int) -> Dict[str, Any]:
+    fws = {"A": fwmode, "B": fwmode}
+    if fwmode == "mixed":
+        a, b = rng.sample(["pa", "py", "pd"], 2)
+        fws = {"A": a, "B": b}
+    kinds = {"c": rng.choice(["int", "num", "str"]), "d": rng.choice(["int", "str"])}
+    groups = []
+    for name, vnames in (("A", ["a1", "a2", "a3"]), ("B", ["b1", "b2"])):
+        have = ["c"] if name == "A" else (["c"] if rng.random() < 0.6 else [])
+        if rng.random() < 0.4:
+            have.append("d")
+        cols = {x: kinds[x] for x in have}
+        n = rng.randrange(4, 9)
+        t = [{"id": ["i", i], **{x: gen_cell(rng, kk, 0.15) for x, kk in cols.items()}} for i in range(n)]
+        groups.append({"name": name, "fw": fws[name], "cols": cols, "table": t,
+                       "vcols": {v: 100 * j for j, v in enumerate(vnames)}})
+    if not same_group or k == 3 and rng.random() < 0.3:
+        names = ["a1", "b1", "a2"][:k]
+    else:
+        names = ["a1", "a2", "a3"][:k]
+    rng.shuffle(names)
+    opts = scheme_options(scheme, k)
+    request = [{"name": n, "opt": o} for n, o in zip(names, opts)]
+    A = groups[0]
+    # 1-2 global filters; the first one is made effective on group A (keeps a proper, non-empty part of its rows)
+    filters: List[Dict[str, Any]] = []
+    for _ in range(30):
+        f = gen_filter(rng, "c", kinds["c"], present_values(A["table"], "c"))
+        if f["type"] == "categorical_inclusion" and not f["par"]["values"]:
+            continue
+        kept = py_expected_ids(["c"], [f], A["table"])
+        if 0 < len(kept) < len(A["table"]) and all(py_expected_ids(list(g["cols"]), [f], g["table"]) for g in groups):
+            filters = [f]
+            break
+    if not filters:
+        filters = [{"col": "c", "type": "categorical_inclusion", "par": {"values": [present_values(A["table"], "c")[0]]}}
+                   if present_values(A["table"], "c") else {"col": "c", "type": "min", "par": {"value": ["i", 0]}}]
+    if rng.random() < 0.5:
+        col = rng.choice(["c", "d", "d", "zz"])
+        kind = kinds.get(col, "int")
+        pres = [v for g in groups for v in present_values(g["table"], col)]
+        for _ in range(10):
+            f2 = gen_filter(rng, col, kind, pres)
+            if f2["type"] == "categorical_inclusion" and not f2["par"]["values"]:
+                continue
+            if json.dumps(f2, sort_keys=True) != json.dumps(filters[0], sort_keys=True) and \
+                    all(py_expected_ids(list(g["cols"]), filters + [f2], g["table"]) for g in groups):
+                filters.append(f2)
+                break
+    return {"kind": "multi", "scheme": scheme, "fwmode": fwmode, "groups": groups, "request": request, "filters": filters}
+
+
+def multi_witness() -> Dict[str, Any]:
+    """the demo of the seeded regression seeded/C11: three groups exposing the filter column, one per framework,
+    three requested features with different option keys, one filter."""
+    ages = [10, 29, 30, 31, 30, 55]
+    groups = [{"name": n, "fw": fw, "cols": {"c": "int"}, "table": [{"id": ["i", i], "c": ["i", a]} for i, a in enumerate(ages)],
+               "vcols": {v: 0}} for n, fw, v in (("A", "py", "orders_value"), ("B", "pd", "payments_value"), ("C", "pa", "clicks_value"))]
+    request = [{"name": "orders_value", "opt": {"group": {"orders_source": "shop"}, "context": {}}},
+               {"name": "payments_value", "opt": {"group": {"payments_source": "bank"}, "context": {}}},
+               {"name": "clicks_value", "opt": {"group": {"clicks_source": "web"}, "context": {}}}]
+    return {"kind": "multi", "scheme": "diffkeys", "fwmode": "mixed", "groups": groups, "request": request,
+            "filters": [{"col": "c", "type": "min", "par": {"value": ["i", 30]}}], "witness": True}
+
+
+def multi_witness_context() -> Dict[str, Any]:
+    """witness of C11-context-options-filter-lost: ONE requested feature with a context option, one filter."""
+    g = {"name": "A", "fw": "pa", "cols": {"c": "int"}, "table": [{"id": ["i", i], "c": ["i", v]} for i, v in enumerate([1, 2, 3, 4])],
+         "vcols": {"a1": 0}}
+    return {"kind": "multi", "scheme": "context_only", "fwmode": "pa", "groups": [g], "witness": True,
+            "request": [{"name": "a1", "opt": {"group": {}, "context": {"cx": 1}}}],
+            "filters": [{"col": "c", "type": "min", "par": {"value": ["i", 3]}}]}
+
+
+def multi_cases(rng: random.Random, rounds: int) -> List[Dict[str, Any]]:
+    """every scheme x framework mode in every round (quick: 2 rounds = 80 runs), alternating same / different groups and 2 / 3 features."""
+    out = [multi_witness(), multi_witness_context()]
+    i = 0
+    for rd in range(rounds):
+        for scheme in SCHEMES:
+            for fwmode in FWMODES:
+                out.append(gen_multi_case(rng, scheme, fwmode, same_group=(i % 2 == 0), k=2 + (i // 2) % 2))
+                i += 1
+    for c in out:
+        c["result"] = run_multi(c)
+    return out
+
+
+def context_conflict(c: Dict[str, Any]) -> bool:
+    """known-finding domain C11-context-options-filter-lost (rejection symptom): two requested features of ONE group with equal group options (one
+    feature set) but different context options, and a global filter on a column that group exposes."""
+    for g in c["groups"]:
+        rs = [r for r in c["request"] if r["name"] in g["vcols"]]
+        if not any(f["col"] in g["cols"] for f in c["filters"]):
+            continue
+        for i in range(len(rs)):
+            for j in range(i + 1, len(rs)):
+                if rs[i]["opt"]["group"] == rs[j]["opt"]["group"] and rs[i]["opt"]["context"] != rs[j]["opt"]["context"]:
+                    return True
+    return False
+
+
+def own_options_witness() -> Dict[str, Any]:
+    """witness of C11-filter-feature-own-options, run in fresh interpreters (the outcome depends on set iteration order)."""
+    import os
+    import subprocess
+    from concurrent.futures import ThreadPoolExecutor
+    env = dict(os.environ)
+
+    def one(arg: Tuple[int, str]) -> Any:
+        seed, variant = arg
+        e = dict(env, PYTHONHASHSEED=str(seed))
+        try:
+            p = subprocess.run([vlib.PY, str(vlib.VERIF / "harness" / "c11_sub.py"), "1", variant], env=e, timeout=120,
+                               stdout=subprocess.PIPE, stderr=subprocess.DEVNULL, text=True)
+            return json.loads(p.stdout.strip().splitlines()[-1])
+        except BaseException as ex:  # noqa: BLE001
+            return ["EXC:" + type(ex).__name__]
+    # the outcome is fixed per interpreter (ids of the generated classes / hash seed) and about one process in four shows the
+    # defect: 24 fresh interpreters with one call each, 3 controls without the own options
+    jobs = [(sd, "own") for sd in range(24)] + [(sd, "plain") for sd in (0, 1, 2)]
+    with ThreadPoolExecutor(max_workers=vlib.NCPU) as ex:
+        res = list(ex.map(one, jobs))
+    return {"kind": "witness_own_options", "expected": [23, 43],
+            "own": {str(sd): r for (sd, v), r in zip(jobs, res) if v == "own"},
+            "plain": {str(sd): r for (sd, v), r in zip(jobs, res) if v == "plain"}}
 
 
 # ------------------------------------------------------------------------------------------------------------
@@ -900,7 +1206,7 @@ def time_e2e_cases(rng: random.Random, n: int) -> List[Dict[str, Any]]:
     from zoneinfo import ZoneInfo
     out = []
     for ci in range(n):
-        fw = rng.choice(["pa", "py", "pdo", "pa", "py", "pdo", "pd"])
+        fw = rng.choice(["pa", "py", "pd", "pa", "py", "pdo", "pd"])
         base = datetime(rng.choice([2000, 2023, 2024, 2025]), rng.randrange(1, 13), rng.randrange(1, 29), rng.randrange(24),
                         rng.choice([0, 30, rng.randrange(60)]), rng.choice([0, rng.randrange(60)]),
                         rng.choice([0, 0, 500000, rng.randrange(1000000)]), tzinfo=timezone.utc)
@@ -1012,26 +1318,20 @@ def classify_spec_cases(rep: vlib.Reporter, tag: str, cases: List[Dict[str, Any]
     into the known-finding domains; everything else is a violation. Returns (#violations, counters)."""
     terms = [ecase_term(c) for c in cases]
     bad, _ = coq_bad(tag + "_spec", "chk_spec", terms)
-    cnt = {"agree_with_spec": len(cases) - len(bad), "kf_arrow_regex": 0, "kf_pandas_keyerror": 0, "kf_pandas_isin_null": 0,
+    cnt = {"agree_with_spec": len(cases) - len(bad), "kf_pandas_isin_null": 0,
            "kf_pydict_empty": 0, "kf_arrow_untyped_values": 0, "violations": 0}
     if not bad:
         return 0, cnt
     idx = sorted(bad)
     sub = [terms[i] for i in idx]
     fails = {}
-    for fn in ("chk_arrow_kf", "chk_pd_keyerror", "chk_pd_isin_null", "chk_py_empty", "chk_pa_untyped"):
+    for fn in ("chk_pd_isin_null", "chk_py_empty", "chk_pa_untyped"):
         b, _ = coq_bad(tag + "_" + fn, fn, sub)
         fails[fn] = {idx[j] for j in range(len(idx)) if j not in b}      # cases PASSING the kf checker
     nviol = 0
     for i in idx:
         c = cases[i]
-        if c["fw"] == "pa" and i in fails["chk_arrow_kf"]:
-            cnt["kf_arrow_regex"] += 1
-            rep.finding("C11-pyarrow-regex-unanchored", "PyArrow regex filter matched a non-prefix occurrence", ctx[i])
-        elif c["fw"] == "pd" and i in fails["chk_pd_keyerror"]:
-            cnt["kf_pandas_keyerror"] += 1
-            rep.finding("C11-pandas-featurename-keyerror", "Pandas filter raised KeyError(FeatureName)", ctx[i])
-        elif c["fw"] in ("pd", "pdo") and i in fails["chk_pd_isin_null"]:
+        if c["fw"] in ("pd", "pdo") and i in fails["chk_pd_isin_null"]:
             cnt["kf_pandas_isin_null"] += 1
             rep.finding("C11-pandas-isin-null-member", "Pandas isin did not match null cells although None is a member", ctx[i])
         elif c["fw"] == "pa" and i in fails["chk_pa_untyped"] and untyped_on_string_column(c):
@@ -1066,8 +1366,11 @@ def run(rep: vlib.Reporter, tier: str, seed: int) -> None:
         "m/2^e, |m| < 2^10), str compared by code point (generators stay in printable ASCII, no newline), set(values) membership = ==",
         "regex family: ['^'] literal ['$'] over [A-Za-z0-9 _]; re.match / str.match / RE2 outside this family are not covered",
         "zoneinfo offsets are inputs (datetime.utcoffset()), not modelled; year range of C11_utc_denotes_instant is 1900..2199",
-        "the planner glue (identity_matched_filters, _add_filter_feature, add_single_filters_to_feature_set) is observed end to "
-        "end through run_all, not modelled",
+        "the planner glue (identity_matched_filters, _add_filter_feature, add_single_filters_to_feature_set) is not modelled: every "
+        "plan exported from the real prepare is checked step by step with Spec/FilterPlan.glue_okb (sufficiency proved: "
+        "C11_plan_glue_sufficient) and the rows returned by run_all are judged by a pure-Python predicate and by Spec/Filter.expected; "
+        "the plan exporter (FeatureGroupStep.features / .filters) is ordinary Python",
+        "filter features with options of their own are covered by one committed witness only (harness/c11_sub.py, fresh interpreters)",
         "canonicalisation: rows identified by an integer id column; returned cells compared with the input cells (NaN/None = null)"]
     found = False
 
@@ -1120,6 +1423,17 @@ def run(rep: vlib.Reporter, tier: str, seed: int) -> None:
     spec_cases = [ec[i] for i in s_idx]
     nv, cnt = classify_spec_cases(rep, "engine", spec_cases, spec_cases)
     found = found or nv > 0
+    # (3) the PyArrow regex method vs its model (Model/FilterArrow.v, the subject of C11_arrow_regex_refines)
+    ar = [c for c in ec if c["fw"] == "pa" and len(c["filters"]) == 1 and c["filters"][0]["type"] == "regex"
+          and c["filters"][0]["col"] in c["names"] and c["kinds"].get(c["filters"][0]["col"]) == "str" and isinstance(c["obs"], list)]
+    bad_ar, _ = coq_bad("engine_arrow_regex", "chk_arrow_regex", [ecase_term(c) for c in ar])
+    for j in sorted(bad_ar)[:5]:
+        c = ar[j]
+        rep.finding(f"arrow-regex-model:{json.dumps([c['filters'], c['table']], sort_keys=True)[:400]}:{c['obs']}",
+                    f"PyArrow regex filter {json.dumps(c['filters'])} returned {c['obs']}; the model of the anchored RE2 search gives other rows", c)
+        found = True
+    cnt["arrow_regex_model_compared"] = len(ar)
+    cnt["arrow_regex_model_disagreements"] = len(bad_ar)
     nontriv = 0
     for j, i in enumerate(s_idx):
         if j in fine_bad:                        # chk_trivial = false -> non-trivial
@@ -1154,17 +1468,13 @@ def run(rep: vlib.Reporter, tier: str, seed: int) -> None:
     found = found or nv > 0
     # a failed run is judged as a whole: the error must be explained by a known-finding domain of one of its groups
     flat = [g for _, gcs in err_runs for g in gcs]
-    ok_key = set(range(len(flat))) - coq_bad("e2e_err_key", "chk_pd_keyerror", [ecase_term(g) for g in flat])[0]
     ok_empty = set(range(len(flat))) - coq_bad("e2e_err_empty", "chk_py_empty", [ecase_term(g) for g in flat])[0]
     ok_untyped = set(range(len(flat))) - coq_bad("e2e_err_untyped", "chk_pa_untyped", [ecase_term(g) for g in flat])[0]
     pos = 0
     for c, gcs in err_runs:
         rng_idx = range(pos, pos + len(gcs))
         pos += len(gcs)
-        if c["fw"] == "pd" and c["result"]["error"] == "KeyError" and any(i in ok_key for i in rng_idx):
-            cnt["kf_pandas_keyerror"] += 1
-            rep.finding("C11-pandas-featurename-keyerror", "Pandas filter raised KeyError(FeatureName)", c)
-        elif c["fw"] == "pa" and c["result"]["error"] == "ArrowType" and any(i in ok_untyped and untyped_on_string_column(flat[i]) for i in rng_idx):
+        if c["fw"] == "pa" and c["result"]["error"] == "ArrowType" and any(i in ok_untyped and untyped_on_string_column(flat[i]) for i in rng_idx):
             cnt["kf_arrow_untyped_values"] += 1
             rep.finding("C11-pyarrow-isin-untyped-values", "PyArrow is_in raised ArrowTypeError for an empty / all-None value list", c)
         elif c["fw"] == "py" and c["result"]["error"] == "Empty" and any(i in ok_empty for i in rng_idx):
@@ -1186,6 +1496,119 @@ def run(rep: vlib.Reporter, tier: str, seed: int) -> None:
                     "groups_without_any_filter_column": len(allg) - with_col,
                     "frameworks": {fw: sum(1 for c in xc if c["fw"] == fw) for fw in ("pa", "py", "pdo", "pd")},
                     "with_derived_group": sum(1 for c in xc if c["derived"]), "run_errors": e2e_err, "nontrivial_results": len(tb), **cnt})
+
+    # ---- end to end, several requested features with differing options (planner glue) ----
+    mc = multi_cases(rng, 30 if big else 2)
+    rep.count(len(mc))
+    m_cnt = {"runs": len(mc), "requested_features_judged": 0, "direct_disagreements": 0, "coq_spec_mismatches_incl_known_finding_domain": 0, "plan_steps_checked": 0,
+             "plan_glue_failures": 0, "kf_context_options_rejected": 0, "kf_context_options_filter_skipped": 0,
+             "kf_context_options_plan_steps": 0, "kf_pydict_empty": 0, "violations": 0,
+             "schemes": {}, "fwmodes": {}, "same_group_requests": 0, "different_group_requests": 0, "features_per_request": {},
+             "filters_per_request": {}, "feature_sets_per_run": {}}
+    spec_terms: List[str] = []
+    spec_ctx: List[Tuple[Dict[str, Any], str, Any, List[int]]] = []
+    glue_terms: List[str] = []
+    glue_ctx: List[Tuple[Dict[str, Any], Dict[str, Any]]] = []
+    for c in mc:
+        res = c["result"]
+        m_cnt["schemes"][c["scheme"]] = m_cnt["schemes"].get(c["scheme"], 0) + 1
+        m_cnt["fwmodes"][c["fwmode"]] = m_cnt["fwmodes"].get(c["fwmode"], 0) + 1
+        gs = {next(g["name"] for g in c["groups"] if r["name"] in g["vcols"]) for r in c["request"]}
+        m_cnt["same_group_requests" if len(gs) == 1 else "different_group_requests"] += 1
+        for key, val in (("features_per_request", len(c["request"])), ("filters_per_request", len(c["filters"]))):
+            m_cnt[key][str(val)] = m_cnt[key].get(str(val), 0) + 1
+        if res["plan"] is not None:
+            nfs = str(sum(1 for st in res["plan"] if st["requested"]))
+            m_cnt["feature_sets_per_run"][nfs] = m_cnt["feature_sets_per_run"].get(nfs, 0) + 1
+        if res["error"]:
+            if res["error"] == "DifferentFilters" and context_conflict(c):
+                m_cnt["kf_context_options_rejected"] += 1
+                rep.finding("C11-context-options-filter-lost", "request with differing context options and a global filter rejected", c)
+            elif res["error"] == "Empty" and any(g["fw"] == "py" and not py_expected_ids(list(g["cols"]), c["filters"], g["table"])
+                                                 for g in c["groups"]):
+                m_cnt["kf_pydict_empty"] += 1
+                rep.finding("C11-pydict-empty-result-raises", "PythonDict run failed because a filtered result is empty", c)
+            else:
+                m_cnt["violations"] += 1
+                rep.finding(f"multi-error:{c['scheme']}:{c['fwmode']}:{json.dumps(c['request'])[:200]}:{res['error'][:60]}",
+                            f"run_all of {json.dumps(c['request'])} with global filters {json.dumps(c['filters'])} failed with {res['error']}", c)
+                found = True
+            continue
+        for r in c["request"]:
+            g = next(g for g in c["groups"] if r["name"] in g["vcols"])
+            obs = res["ids"].get(r["name"])
+            want = py_expected_ids(list(g["cols"]), c["filters"], g["table"])
+            m_cnt["requested_features_judged"] += 1
+            if obs != want and r["opt"]["context"] and obs == [x["id"][1] for x in g["table"]]:
+                # known-finding domain: the requested feature carries a context option -> every filter of its step is skipped
+                m_cnt["kf_context_options_filter_skipped"] += 1
+                rep.finding("C11-context-options-filter-lost", "global filters skipped for a requested feature with a context option", c)
+            elif obs != want:
+                m_cnt["direct_disagreements"] += 1
+                m_cnt["violations"] += 1
+                if m_cnt["direct_disagreements"] <= 5:
+                    rep.finding(f"multi:{c['scheme']}:{c['fwmode']}:{json.dumps(c['request'])[:300]}:{r['name']}:{obs}",
+                                f"request {json.dumps(c['request'])} with global filters {json.dumps(c['filters'])}: feature {r['name']!r} of group "
+                                f"{g['name']} ({g['fw']}) returned rows {obs}; the rows satisfying every applicable filter are {want}", c)
+                found = True
+            t_full, kinds = full_table(g)
+            spec_terms.append(ecase_term({"names": ["id"] + list(kinds), "filters": c["filters"], "table": g["table"],
+                                          "obs": obs if obs is not None else "Missing"}))
+            spec_ctx.append((c, r["name"], obs, want))
+            if 0 < len(want) < len(g["table"]):
+                rep.nontrivial(("m", c["scheme"], c["fwmode"], c["request"], c["filters"], g["table"], r["name"]))
+        for st in res["plan"] or []:
+            if not st["requested"]:
+                continue
+            g = next(g for g in c["groups"] if g["name"] == st["group"])
+            _, kinds = full_table(g)
+            foreign = '{| f_col := "?"; f_type := FCustom; f_par := {| p_value := None; p_values := None; p_min := None; p_max := None; p_excl := false |} |}'
+            fsS = [foreign if i is None else cq_filter(c["filters"][i]) for i in st["filters"]]
+            glue_terms.append(f"({cq_list(cq_str(n) for n in ['id'] + list(kinds))}, {cq_list(cq_str(n) for n in st['names'])}, "
+                              f"{cq_list(fsS)}, {cq_list(cq_filter(f) for f in c['filters'])})")
+            glue_ctx.append((c, st))
+    bad_s, _ = coq_bad("multi_spec", "chk_spec", spec_terms)
+    for i in sorted(bad_s):
+        c, name, obs, want = spec_ctx[i]
+        m_cnt["coq_spec_mismatches_incl_known_finding_domain"] += 1
+        if obs == want:                 # the Python predicate agreed but the Coq spec does not: report as well
+            m_cnt["violations"] += 1
+            rep.finding(f"multi-spec:{c['scheme']}:{c['fwmode']}:{json.dumps(c['request'])[:300]}:{name}:{obs}",
+                        f"request {json.dumps(c['request'])} with global filters {json.dumps(c['filters'])}: feature {name!r} returned rows {obs}, "
+                        "which Spec/Filter.expected does not give", c)
+            found = True
+    bad_g, _ = coq_bad("multi_glue", "chk_glue", glue_terms, ty="list string * list string * list filt * list filt")
+    m_cnt["plan_steps_checked"] = len(glue_terms)
+    for i in sorted(bad_g):
+        c, st = glue_ctx[i]
+        if any(r["opt"]["context"] for r in c["request"] if r["name"] in st["requested"]):
+            m_cnt["kf_context_options_plan_steps"] += 1
+            rep.finding("C11-context-options-filter-lost", "plan step of a feature with a context option lacks the filter column", c)
+            continue
+        m_cnt["plan_glue_failures"] += 1
+        m_cnt["violations"] += 1
+        if m_cnt["plan_glue_failures"] <= 5:
+            rep.finding(f"multi-plan:{c['scheme']}:{c['fwmode']}:{json.dumps(c['request'])[:300]}:{json.dumps(st)[:200]}",
+                        f"plan for request {json.dumps(c['request'])} with global filters {json.dumps(c['filters'])}: the step of group {st['group']} "
+                        f"holding {st['requested']} has feature names {st['names']} and filters {st['filters']} (indices into the global filters); "
+                        "it must carry every global filter whose column the group exposes and have that column among its names", c)
+        found = True
+    rep.add("multi_feature_e2e", m_cnt)
+
+    # ---- witness: a filter feature with options of its own (outcome depends on set order; fresh interpreters) ----
+    ow = own_options_witness()
+    rep.count(len(ow["own"]) + len(ow["plain"]))
+    rep.add("witness_filter_feature_own_options", ow)
+    flat_own = [x for r in ow["own"].values() for x in r]
+    flat_plain = [x for r in ow["plain"].values() for x in r]
+    if any(x != ow["expected"] for x in flat_plain):
+        rep.finding("own-options-control", f"control (filter feature without own options) returned {flat_plain}, expected {ow['expected']}", ow)
+        found = True
+    if any(x == [23, 43, 73] for x in flat_own):
+        rep.finding("C11-filter-feature-own-options", "a second global filter is not applied when another filter feature carries own options", ow)
+    if any(x not in ([23, 43], [23, 43, 73]) for x in flat_own):
+        rep.finding("own-options-other", f"filter feature with own options: unexpected outcomes {flat_own}", ow)
+        found = True
 
     # ---- time ----
     tc = time_cases(rng, 4000 if big else 260)
@@ -1233,13 +1656,10 @@ def run(rep: vlib.Reporter, tier: str, seed: int) -> None:
                             f"instants lie in the window are {c['oracle_ids']}", c)
                 found = True
     badz, _ = coq_bad("time_e2e", "chk_time_e2e", t_terms, ty="tcase")
-    kf_t = {"kf_pandas_keyerror": 0, "kf_pydict_empty": 0}
+    kf_t = {"kf_pydict_empty": 0}
     for i in sorted(badz):
         c, tcs = t_ctx[i], t_cases[i]
-        if tcs["fw"] == "pd" and tcs["obs"] == "KeyError":
-            kf_t["kf_pandas_keyerror"] += 1
-            rep.finding("C11-pandas-featurename-keyerror", "Pandas filter raised KeyError(FeatureName)", c)
-        elif tcs["fw"] == "py" and tcs["obs"] == "Empty" and c["oracle_ids"] == []:
+        if tcs["fw"] == "py" and tcs["obs"] == "Empty" and c["oracle_ids"] == []:
             kf_t["kf_pydict_empty"] += 1
             rep.finding("C11-pydict-empty-result-raises", "PythonDict run failed because the filtered result is empty", c)
         else:
@@ -1266,7 +1686,12 @@ def run(rep: vlib.Reporter, tier: str, seed: int) -> None:
         rep.finding("witness-list", f"add_filter with a list-valued parameter: {w['list']}", w)
         found = True
 
-    rep.add("rule", "engine level: PRNG tables (0..12 rows; int / mixed int+dyadic-float / float / string columns, nulls 0-100 %, "
+    rep.add("rule", "multi-feature end to end (every run): 8 option schemes (none, identical, different keys, same key / different value, "
+                    "with / without, context only, context vs none, same group + different context) x 5 framework modes (pa, py, pandas "
+                    "default index, pandas object index, one framework per group) x 2 rounds, 2-3 requested features of the same or of "
+                    "different groups, 1-2 global filters the first of which keeps a proper non-empty part of the rows; judged per "
+                    "requested feature by a Python predicate and by the Coq spec, and per exported plan step by glue_okb. "
+                    "engine level: PRNG tables (0..12 rows; int / mixed int+dyadic-float / float / string columns, nulls 0-100 %, "
                     "duplicates, for PythonDict also rows lacking the key), 1-3 filters of all six types with parameters drawn mostly "
                     "from the values present in the column (so bounds are hit), feature sets with / without the filter columns, "
                     "plus ill-typed, malformed, list-valued and None-member parameters; end to end: run_all over 1-2 root groups with / "
@@ -1276,9 +1701,10 @@ def run(rep: vlib.Reporter, tier: str, seed: int) -> None:
                     "overflow; non-trivial = non-zero offset and successful conversion")
     for c in (dc[0], next((c for c in ec if c["fw"] == "pa" and c["flavour"] == "fine" and not c.get("witness") and len(c["table"]) > 2), ec[0]),
               next((c for c in ec if c["fw"] == "py" and len(c["filters"]) > 1 and len(c["table"]) > 2), ec[1]),
-              next((c for c in xc if not c.get("witness") and not c["result"]["error"]), xc[0]), tc[7],
+              next((c for c in xc if not c.get("witness") and not c["result"]["error"]), xc[0]),
+              next((c for c in mc if not c.get("witness") and c["scheme"] == "diffkeys"), mc[0]), tc[7],
               next((c for c in te if not c["result"]["error"]), te[0])):
-        rep.sample(short(c))
+        rep.sample(short(c), cap=8)
     if not pr.ok and not found:
         rep.finding("proof-broken", "Props/C11.v no longer checks",
                     {"failed_files": pr.failed_files, "forbidden": pr.forbidden, "log_tail": pr.log[-3000:]}, found_input=False)
@@ -1298,6 +1724,17 @@ def replay(path: str) -> int:
         for g in r["groups"]:
             print(" group", g["id"], g["cols"], json.dumps(g["table"]))
         print(" now:", run_e2e(dict(r)), " recorded:", r.get("result"), " oracle:", r.get("oracle_ids"))
+    elif k == "multi":
+        print("multi request", json.dumps(r["request"]), "filters", json.dumps(r["filters"]))
+        for g in r["groups"]:
+            print(" group", g["name"], g["fw"], g["cols"], "value columns", g["vcols"], json.dumps(g["table"]))
+            print("   rows satisfying every applicable filter:", py_expected_ids(list(g["cols"]), r["filters"], g["table"]))
+        now = run_multi(dict(r))
+        print(" now: error", now["error"], "rows per requested feature", now["ids"], " recorded:", r.get("result", {}).get("error"), r.get("result", {}).get("ids"))
+        for st in now["plan"] or []:
+            print("   plan step", st)
+    elif k == "witness_own_options":
+        print("now:", own_options_witness(), "recorded:", r)
     elif k == "time":
         from mloda.user import GlobalFilter
         try:
